@@ -71,6 +71,7 @@ def run(run, tier, seed, args):
         "assumed contracts: Pool._create_connection creates exactly one record or raises with nothing created; record.close() on the Full path retires the slot; Condition.wait() may change the queue arbitrarily but re-establishes the monitor invariant",
         "interference model (rely/guarantee reading of the monitor): other threads may change _overflow, the ghost counters and the queue at every statement outside the lock, at lock acquisition and around calls out of the pool, subject to the monitor invariant, which this thread proves before each such point; `+=` on an int attribute is one atomic step; dispose() is excluded by name",
         "ghost statements (pending/mine bookkeeping) are attached to `self._overflow += 1` / `-= 1` by source text; they touch ghost fields only",
-        "NOT decided: 'one connection never held by two checkouts' beyond the queue handing each stored element out once; wake-ups, time-outs, fairness; AsyncAdaptedQueuePool, SingletonThreadPool, StaticPool, NullPool; real interleavings",
+        "'no connection record is handed to two holders' is proved thread-modularly (QueuePool._do_get / _do_return_conn, contracts '#unique'): ghost set of records held by the current thread (a ghost field of the queue, updated atomically with get / put / create), monitor invariant 'the idle queue is duplicate free and contains no record this thread holds'; rely (assumed contract of Condition.wait = the other threads): they keep the queue duplicate free, never put a record this thread holds, and only put existing objects; precondition of _do_return_conn: the record is held by the caller (its call sites are in the bounded complement)",
+        "NOT decided: fairness; that a *DBAPI connection* (as opposed to its record) is not shared -- one record wraps one connection (C26 record layer); AsyncAdaptedQueuePool, SingletonThreadPool, StaticPool, NullPool; real interleavings",
         "partial correctness for the recursive QueuePool._do_get",
     ]
